@@ -95,6 +95,23 @@ def generate(g, ex):
         one(nm, 'pub fn %s<N: ArrayLength>(slice: Sl) -> (ret: PanicOr<Sl>)' % nm, ['slice.stride == N::n()', SRC_OK],
             [('never-panics', ['C10'], 'ret is Ret'),
              ('inverse', ['C10'], 'ret->Ret_0.base == slice.base && ret->Ret_0.off == slice.off && ret->Ret_0.stride == 1 && ret->Ret_0.len == slice.len * N::n() && ret->Ret_0.end() == slice.end()')])
+
+    # ---- const_transmute (free fn): panics iff the sizes differ; the union read needs equal sizes ----
+    f = g.extract_free(FILE, 'const_transmute')
+    stats = {}
+    body = ex.normalize(f['body'])
+    n = ex.statements(body)
+    body = ex.apply_rules(body, [
+        ('R-len', r'mem::size_of::<A>\(\)', 'a.size'),
+        ('R-len', r'mem::size_of::<B>\(\)', 'size_b'),
+        ('R-panic', r'panic!\("[^"]*"\);', 'return PanicOr::Panic;'),
+        ('R-misc', r'union Union<A, B> \{ a: ManuallyDrop<A>, b: ManuallyDrop<B>, \} ', ''),
+        ('R-slots', r'let a = ManuallyDrop::new\(a\); ', ''),
+        ('R-ptr', r'ManuallyDrop::into_inner\(Union \{ a \}\.b\)', 'PanicOr::Ret(union_reinterpret(a, size_b))'),
+    ], stats)
+    ex.check_supported('const_transmute', body)
+    g.emit_fn(Fn('const_transmute', FILE, f['line'], f['sig'], 'pub fn const_transmute(a: Bits, size_b: usize) -> (ret: PanicOr<Bits>)', body, [],
+                 [('panics-iff-sizes-differ', ['C02', 'C10'], 'ret is Panic <==> a.size != size_b')], stats, n, PROPS))
     g.raw('proof fn canary() { assert(false); } /*OB:canary:*/')
     g.raw('} // verus!\nfn main() {}\n')
 
